@@ -68,15 +68,15 @@ fn oracle(req: &str, resp: &str) -> Result<bool, String> {
             let (qmin, qmax) = (unit(qminv, qminm), unit(qmaxv, qmaxm));
             let step_max = BigUint::from(10u8).pow(qmaxm as u32);
             let step_min = BigUint::from(10u8).pow(qminm as u32);
-            if qmaxv != i.price.max.value {
-                if qmax > hi { return Err(format!("adjusted max {qmax} above ref+dev {hi}")); }
-                if &qmax + &step_max <= hi { return Err("adjusted max is not the floor at the decimal precision".into()); }
-            } else if !within(&pmax) { return Err("max left outside the band".into()); }
+            // one-sided band on each bound (an adjusted bound may coincide with the old value)
+            if qmax > hi { return Err(format!("max {qmax} above ref+dev {hi} after adjustment")); }
+            if let Some(l) = &lo { if qmin < *l { return Err(format!("min {qmin} below ref-dev {l} after adjustment")); } }
+            if qmaxv != i.price.max.value && &qmax + &step_max <= hi { return Err("adjusted max is not the floor at the decimal precision".into()); }
             if qminv != i.price.min.value {
-                let lo = lo.ok_or("min adjusted although ref < dev")?;
-                if qmin < lo { return Err(format!("adjusted min {qmin} below ref-dev {lo}")); }
+                let lo = lo.clone().ok_or("min adjusted although ref < dev")?;
                 if qmin >= &lo + &step_min { return Err("adjusted min is not the ceiling at the decimal precision".into()); }
-            } else if !within(&pmin) { return Err("min left outside the band".into()); }
+            }
+            let _ = &within;
             Ok(true)
         }
         ("accept", "err") => Ok(false),
